@@ -573,6 +573,16 @@ fn run_sequence(out: &mut Out, sv: &Servers, probe: &Router, seqno: usize, reqs:
                 let v = catch(|| hd.handle_view(&view, &ctx));
                 let msg = Message { header: h, query: r.query.clone(), body: r.body.clone() };
                 let o = catch(|| hd.handle_with_ctx(&msg, &ctx));
+                // shape of a built-in handler's success response (model: `builtinResponse`): request id, known query
+                // format or raw binary, ec 0, no query, consistent lengths
+                if let (Ok(Ok(m)), false) = (&v, r.query.starts_with(b"/custom")) {
+                    let want_qf = if r.h.query_format <= 1 { r.h.query_format } else { 0 };
+                    let hh = &m.header;
+                    if m.header.ec == 0 && !(hh.id == r.h.id && hh.query_format == want_qf && hh.notify == 0 && hh.reserved == 0 && hh.version == 1 && m.query.is_empty()
+                        && hh.body_length == m.body.len() as u64 && hh.length == 48 + m.body.len() as u64) {
+                        out.oracle_fail("dispatch.builtin_response_shape", &format!("request id {}: a built-in handler's success response does not have the response_header_builder shape", r.h.id), &[format!("probe {}", hex(&r.query))]);
+                    }
+                }
                 match (v, o) {
                     (Ok(v), Ok(o)) => (hout_str(&v), hout_str(&o)),
                     _ => ("panic".to_string(), "panic".to_string()),
